@@ -392,6 +392,18 @@ Theorem C10_user_labels : forall (stamp : string) (r : rel),
 Proof. exact user_labels_all. Qed.
 Print Assumptions C10_user_labels.
 
+(* the time-stamp label of a stored object: the driver's stamp ("0" in the model) unless the
+   release's own label map has an entry of that name, which then wins (its last value).  A
+   release read back through Query and updated keeps the createdAt of its creation - and, from
+   its second update on, the modifiedAt of its first update (replayed on the real drivers:
+   notes/C10.md) *)
+Theorem C10_stamp_label_own_wins : forall (stamp : string) (r : rel),
+  is_stamp stamp ->
+  aget stamp (object_labels stamp r) =
+  Some (match alast stamp (rlabels r) with Some v => v | None => "0" end).
+Proof. exact stamp_label_own_wins. Qed.
+Print Assumptions C10_stamp_label_own_wins.
+
 (* ---------- the base64 layer of the record codec (encoding/base64 StdEncoding) ---------- *)
 Theorem C10_base64_roundtrip : forall bs : string, b64_decode (b64_encode bs) = Some bs.
 Proof. exact b64_roundtrip. Qed.
